@@ -933,14 +933,14 @@ func gasLimit(r *rand.Rand) uint64 {
 		return uint64(r.Intn(100))
 	case 2, 3:
 		return uint64(r.Intn(30000))
-	case 4, 5, 6, 7, 8, 9:
+	case 4, 5, 6:
 		return 30000000
-	case 10, 11, 12:
+	case 7, 8, 9:
 		return uint64(r.Int63n(30000001))
-	case 13, 14, 15, 16:
+	case 10, 11, 12, 13:
 		return 100000 + uint64(r.Intn(400000))
 	}
-	return 2000000 + uint64(r.Intn(8000000))
+	return 2000000 + uint64(r.Intn(6000000))
 }
 
 func callData(r *rand.Rand) []byte {
